@@ -252,7 +252,7 @@ func varyOps(r *Rng, groups [][]jop) ([][]jop, string) {
 	if len(g) == 0 {
 		return g, "none"
 	}
-	switch r.Intn(5) {
+	switch r.Intn(6) {
 	case 0: // changed value in a matching test/remove pair
 		gi := r.Intn(len(g))
 		for j := 0; j+1 < len(g[gi]); j++ {
@@ -306,6 +306,37 @@ func varyOps(r *Rng, groups [][]jop) ([][]jop, string) {
 		}
 		g[gi] = ng
 		return g, "context-dropped"
+	case 4: // '-' append that KEEPS its context tests: the trailing adds of a hunk without removes become appends
+		gi := r.Intn(len(g))
+		hasRemove := false
+		for _, o := range g[gi] {
+			if o.Op == "remove" {
+				hasRemove = true
+			}
+		}
+		if !hasRemove {
+			adds := []int{}
+			for j, o := range g[gi] {
+				if o.Op == "add" {
+					adds = append(adds, j)
+				}
+			}
+			if len(adds) > 0 {
+				i := strings.LastIndex(g[gi][adds[0]].Path, "/")
+				if i >= 0 && isIndexTok(g[gi][adds[0]].Path[i+1:]) {
+					vals := []json.RawMessage{}
+					for _, j := range adds {
+						vals = append(vals, g[gi][j].Value)
+					}
+					// jd renders adds in reverse; appends must come in document order
+					for k, j := range adds {
+						g[gi][j].Path = g[gi][j].Path[:i+1] + "-"
+						g[gi][j].Value = vals[len(vals)-1-k]
+					}
+				}
+			}
+		}
+		return g, "dash-append-with-context"
 	default: // '-' append: an add at an array index becomes an append
 		gi := r.Intn(len(g))
 		last := len(g[gi]) - 1
